@@ -104,6 +104,17 @@ def main():
             f.write(json.dumps({'id': shard + n * nshards, 'cls': 'relaystall-pipe', 'cfg': {'lmtp': True, 'pipelining': False, 'kind': 'smtp',
                                 'deadline': 1007, 'stage': 'exit'}, 'ev': ev}, separators=(',', ':')) + '\n')
             n += 1
+    # HTTP relay: a peer that accepts the request and never answers; a peer that never accepts
+    if shard == 1:
+        from harness import hdrv
+        for act, reuse in (('stall', None), ('stall', 5)):
+            r = hdrv.HttpRun([act], idle_timeout=reuse)
+            r.attempt(1, 1)
+            ev = r.run_to_end()
+            stats['executions'] += 1
+            f.write(json.dumps({'id': shard + n * nshards, 'cls': 'relaystall-http', 'cfg': {'lmtp': False, 'pipelining': False, 'kind': 'http',
+                                'deadline': 1000 + hdrv.HTTP_T, 'stage': 'http'}, 'ev': ev}, separators=(',', ':')) + '\n')
+            n += 1
     f.write(json.dumps({'summary': stats}) + '\n')
     f.close()
 
